@@ -85,6 +85,19 @@ use serde_json::{json, Value};
 use std::collections::{BTreeMap, BTreeSet};
 use std::io::Write;
 
+/// CPU time consumed by this process so far, in milliseconds
+fn cpu_ms() -> u64 {
+    let mut ts = libc::timespec {
+        tv_sec: 0,
+        tv_nsec: 0,
+    };
+    // SAFETY: plain syscall writing into a local struct
+    unsafe {
+        libc::clock_gettime(libc::CLOCK_PROCESS_CPUTIME_ID, &mut ts);
+    }
+    ts.tv_sec as u64 * 1000 + ts.tv_nsec as u64 / 1_000_000
+}
+
 fn arg<'a>(args: &'a [String], name: &str) -> Option<&'a str> {
     args.iter()
         .position(|a| a == name)
@@ -137,12 +150,19 @@ fn cmd_run(args: &[String]) -> i32 {
     // loop inside one poll cannot be seen by the step budget) is reported as a
     // hang and the worker exits with status 3; the driver restarts it after
     // the offending run.
-    let run_timeout = argu(args, "--run-timeout", 20);
+    // The limit is on CPU time consumed by the process during the run (the
+    // watchdog thread sleeps, so that is the run's own CPU time): a loaded
+    // machine slows wall clock but not this.  A generous wall-clock limit
+    // remains as a backstop for a run that blocks without burning CPU.
+    let run_timeout = argu(args, "--run-timeout", 60);
+    let wall_backstop = argu(args, "--run-wall-timeout", 1800);
     let cur_run = std::sync::Arc::new(std::sync::atomic::AtomicU64::new(u64::MAX));
     let cur_start = std::sync::Arc::new(std::sync::atomic::AtomicU64::new(0));
+    let cur_start_wall = std::sync::Arc::new(std::sync::atomic::AtomicU64::new(0));
     {
         let cur_run = cur_run.clone();
         let cur_start = cur_start.clone();
+        let cur_start_wall = cur_start_wall.clone();
         let prop = prop.to_string();
         std::thread::spawn(move || loop {
             std::thread::sleep(std::time::Duration::from_millis(500));
@@ -151,11 +171,15 @@ fn cmd_run(args: &[String]) -> i32 {
                 continue;
             }
             let st = cur_start.load(std::sync::atomic::Ordering::SeqCst);
-            let now = t0.elapsed().as_millis() as u64;
-            if now.saturating_sub(st) > run_timeout * 1000 {
+            let st_wall = cur_start_wall.load(std::sync::atomic::Ordering::SeqCst);
+            let now = cpu_ms();
+            let now_wall = t0.elapsed().as_millis() as u64;
+            if now.saturating_sub(st) > run_timeout * 1000
+                || now_wall.saturating_sub(st_wall) > wall_backstop * 1000
+            {
                 println!(
                     "{}",
-                    json!({"hang": {"run": r, "prop": prop, "seed": seed, "wall_limit_s": run_timeout}})
+                    json!({"hang": {"run": r, "prop": prop, "seed": seed, "cpu_limit_s": run_timeout}})
                 );
                 std::process::exit(3);
             }
@@ -189,7 +213,8 @@ fn cmd_run(args: &[String]) -> i32 {
         let want_case = evals < samples;
         let _ = writeln!(out, "{}", json!({"begin": i}));
         let _ = out.flush();
-        cur_start.store(t0.elapsed().as_millis() as u64, std::sync::atomic::Ordering::SeqCst);
+        cur_start.store(cpu_ms(), std::sync::atomic::Ordering::SeqCst);
+        cur_start_wall.store(t0.elapsed().as_millis() as u64, std::sync::atomic::Ordering::SeqCst);
         cur_run.store(i, std::sync::atomic::Ordering::SeqCst);
         let r = run_case(&p, seed, i, &ov, want_case);
         cur_run.store(u64::MAX, std::sync::atomic::Ordering::SeqCst);
@@ -275,11 +300,13 @@ fn cmd_replay(args: &[String]) -> i32 {
     let seed = v["seed"].as_u64().unwrap_or(1);
     let run = v["run"].as_u64().unwrap_or(0);
     let ov = load_override(&v["case"]);
-    let limit = argu(args, "--run-timeout", 20);
-    std::thread::spawn(move || {
-        std::thread::sleep(std::time::Duration::from_secs(limit));
-        println!("{}", json!({"hang": {"wall_limit_s": limit}}));
-        std::process::exit(3);
+    let limit = argu(args, "--run-timeout", 60);
+    std::thread::spawn(move || loop {
+        std::thread::sleep(std::time::Duration::from_millis(500));
+        if cpu_ms() > limit * 1000 {
+            println!("{}", json!({"hang": {"cpu_limit_s": limit}}));
+            std::process::exit(3);
+        }
     });
     let r = run_case(&p, seed, run, &ov, true);
     println!("{}", json!({"replay": r.to_json(false)}));
